@@ -39,7 +39,7 @@ fn quiesce(sim: &mut Sim, rng: &mut Rng, budget: &mut u64) -> bool {
         // a retry loop that does not settle in zero virtual time (e.g. stream negotiation that
         // keeps failing until START_SENDING_TIMEOUT): let virtual time pass
         since_tick += 1;
-        if since_tick > 4000 {
+        if since_tick > sim.autotick_steps {
             since_tick = 0;
             sim.advance(1000);
         }
@@ -180,6 +180,14 @@ fn handler_checks(sim: &Sim, i: usize, out: &mut Vec<(String, String)>) {
             substreams.entry(c.clone()).or_default().1 += 1;
         }
     }
+    // every wantlist a connection accepted has an outcome once the timeouts (1 s to acknowledge,
+    // 5 s to start sending) and a refresh period have passed, unless the connection is gone
+    for (c, w) in &outstanding {
+        let conn: u64 = c.strip_prefix("c=").and_then(|x| x.parse().ok()).unwrap_or(u64::MAX);
+        if sim.nodes[i].conns.contains_key(&conn) {
+            out.push(("C14".into(), format!("node {i} {c}: wantlist {w} was handed to the connection and, a refresh period later, has neither been sent nor been reported failed")));
+        }
+    }
     for (c, (sent, opened)) in substreams {
         if sent > opened {
             out.push(("C14".into(), format!("node {i} {c}: {sent} wantlists started sending on {opened} negotiated client streams (a stream was reused)")));
@@ -290,6 +298,10 @@ pub fn run_one(seed: u64, cfg: &SimCfg) -> RunResult {
         .collect();
     let sdh = rng.chance(3, 4);
     let mut sim = Sim::new(n, &prefixes, sdh, cfg.keys.max(8));
+    if cfg.prefixes {
+        // failing stream negotiations retry in zero virtual time: keep such loops short
+        sim.autotick_steps = 300;
+    }
     // initial contents
     for k in 0..cfg.keys {
         for i in 0..n {
